@@ -121,6 +121,7 @@ class Check:
     stub_components = []
     assumptions = []
     rule = ''
+    state_measure = ''            # what 'distinct_states' counts for this check
     probes_expected = []          # probe names that should be non-zero in a thorough run
     chunk = 10                    # runs per worker task
     run_timeout = 120             # seconds per run (hang protection only)
@@ -353,6 +354,7 @@ def run_check(cid, tier, seed, out=sys.stdout):
     merged = dict(evs[0])
     cov = dict(evs[0]['coverage'])
     cov['parts'] = {part: ev['coverage'] for part, ev in zip(parts, evs)}
+    cov['state_measure'] = ' || '.join('[%s] %s' % (part, ev['coverage'].get('state_measure', '')) for part, ev in zip(parts, evs))
     for key in ('evaluations', 'distinct_nontrivial', 'runs', 'runs_requested', 'distinct_scenarios', 'distinct_states'):
         cov[key] = sum(ev['coverage'].get(key, 0) for ev in evs)
     cov['samples'] = [smp for ev in evs for smp in ev['coverage']['samples'][:2]]
@@ -546,6 +548,7 @@ def run_single(cid, tier, seed, out=sys.stdout, property_id=None):
         'runs': len(results), 'runs_requested': runs,
         'distinct_scenarios': len(scen_digests),
         'distinct_states': len(agg.states),
+        'state_measure': getattr(check, 'state_measure', ''),
         'faults_fired': dict(sorted(agg.faults.items())),
         'probes': dict(sorted(agg.probes.items())),
         'probes_at_zero': missing_probes,
